@@ -33,6 +33,15 @@ Proof. intros n x l; revert n; induction l as [|h t IH]; intros [|n] H; cbn in *
   - f_equal; auto.
 Qed.
 
+Lemma NoDup_snoc {A} : forall (l : list A) x, NoDup l -> ~ In x l -> NoDup (l ++ [x]).
+Proof.
+  induction l as [|h t IH]; intros x Hnd Hin; cbn.
+  - constructor; [intros []|constructor].
+  - inversion Hnd as [|h' t' Hh Ht]; subst. constructor.
+    + intro Hc; apply in_app_or in Hc as [Hc|[Hc|[]]]; [auto|subst; apply Hin; left; auto].
+    + apply IH; auto. intro Hc; apply Hin; right; auto.
+Qed.
+
 (* ---------- the structural steps ---------- *)
 Definition outpoint (c : core) : N * bool * N := (c_t c, c_short c, c_idx c).
 
@@ -94,9 +103,268 @@ Lemma add_input_nd : forall p a p', add_input p a = Some p' -> nd p -> nd p'.
 Proof.
   intros p a p' H Hnd; apply add_input_inv in H as (_ & _ & _ & _ & _ & H3 & _ & _ & _ & Hdup).
   unfold nd in *; rewrite H3, map_app; cbn.
-  apply NoDup_app_intro; auto.
-  - constructor; [intros []|constructor].
-  - intros x Hx [Hy|[]]; subst x. eapply existsb_same_outpoint_false; eauto.
+  apply NoDup_snoc; auto. apply existsb_same_outpoint_false; auto.
 Qed.
 
-Lemma NoDup_app_intro_local : True. Proof. exact I. Qed.
+
+Lemma add_inputs_inv : forall l p p', add_inputs p l = Some p' ->
+  g_nin p' = g_nin p + N.of_nat (length l) /\ g_nout p' = g_nout p /\ g_flags p' = g_flags p
+  /\ g_fallback p' = g_fallback p /\ g_scalars p' = g_scalars p
+  /\ p_cores p' = p_cores p ++ map to_core l /\ p_auxs p' = p_auxs p ++ repeat aux0 (length l)
+  /\ p_outs p' = p_outs p /\ (l <> [] -> inputs_modifiable p = true).
+Proof.
+  induction l as [|a l IH]; intros p p' H; cbn in H.
+  - inversion H; subst; cbn; rewrite !app_nil_r, N.add_0_r; repeat split; auto; congruence.
+  - destruct (add_input p a) as [p1|] eqn:E1; [|discriminate].
+    apply add_input_inv in E1 as (A1 & A2 & A3 & A4 & A5 & A6 & A7 & A8 & A9 & _).
+    apply IH in H as (B1 & B2 & B3 & B4 & B5 & B6 & B7 & B8 & _).
+    rewrite B1, B2, B3, B4, B5, B6, B7, B8, A1, A2, A3, A4, A5, A6, A7, A8; cbn [length map repeat].
+    rewrite <- !app_assoc; cbn [app]. repeat split; auto; lia.
+Qed.
+
+Lemma add_inputs_cm : forall l p p', add_inputs p l = Some p' -> cm p -> cm p'.
+Proof.
+  induction l as [|a l IH]; intros p p' H C; cbn in H; [inversion H; subst; auto|].
+  destruct (add_input p a) as [p1|] eqn:E1; [|discriminate]. eapply IH; eauto. eapply add_input_cm; eauto.
+Qed.
+
+Lemma add_inputs_nd : forall l p p', add_inputs p l = Some p' -> nd p -> nd p'.
+Proof.
+  induction l as [|a l IH]; intros p p' H C; cbn in H; [inversion H; subst; auto|].
+  destruct (add_input p a) as [p1|] eqn:E1; [|discriminate]. eapply IH; eauto. eapply add_input_nd; eauto.
+Qed.
+
+Lemma add_outputs_inv : forall l p p', add_outputs p l = Some p' ->
+  g_nin p' = g_nin p /\ g_nout p' = g_nout p + N.of_nat (length l) /\ g_flags p' = g_flags p
+  /\ g_fallback p' = g_fallback p /\ g_scalars p' = g_scalars p
+  /\ p_cores p' = p_cores p /\ p_auxs p' = p_auxs p /\ p_outs p' = p_outs p ++ l
+  /\ (l <> [] -> outputs_modifiable p = true).
+Proof.
+  induction l as [|a l IH]; intros p p' H; cbn in H.
+  - inversion H; subst; cbn; rewrite !app_nil_r, N.add_0_r; repeat split; auto; congruence.
+  - destruct (add_output p a) as [p1|] eqn:E1; [|discriminate].
+    apply add_output_inv in E1 as (A1 & A2 & A3 & A4 & A5 & A6 & A7 & A8 & A9).
+    apply IH in H as (B1 & B2 & B3 & B4 & B5 & B6 & B7 & B8 & _).
+    rewrite B1, B2, B3, B4, B5, B6, B7, B8, A1, A2, A3, A4, A5, A6, A7, A8; cbn [length].
+    rewrite <- !app_assoc; cbn [app]. repeat split; auto; lia.
+Qed.
+
+Lemma add_outputs_cm : forall l p p', add_outputs p l = Some p' -> cm p -> cm p'.
+Proof.
+  intros l p p' H [C1 C2]; apply add_outputs_inv in H as (A1 & A2 & _ & _ & _ & A6 & _ & A8 & _).
+  unfold cm; rewrite A1, A2, A6, A8, app_length; split; lia.
+Qed.
+
+(* ---------- the non-structural steps keep the skeleton ---------- *)
+Lemma on_input_parts : forall p i g f auxs outs sc r,
+  on_input p i g f = ((auxs, outs, sc), r) -> outs = p_outs p /\ sc = g_scalars p.
+Proof.
+  intros p i g f auxs outs sc r H; unfold on_input in H.
+  destruct (in_index p i g) as [[[n c] a]|o]; [destruct (f c a) as [a' r']|]; inversion H; auto.
+Qed.
+
+Lemma on_output_parts : forall p i f auxs outs sc r,
+  on_output p i f = ((auxs, outs, sc), r) -> length outs = length (p_outs p) /\ auxs = p_auxs p /\ sc = g_scalars p.
+Proof.
+  intros p i f auxs outs sc r H; unfold on_output in H.
+  destruct (out_index p i) as [[n o]|o]; [destruct (f o) as [o' r']|]; inversion H; subst;
+    rewrite ?length_set_nth; auto.
+Qed.
+
+Lemma blind_outs_len : forall a l outs outs' d, blind_outs a l outs = (outs', d) -> length outs' = length outs.
+Proof.
+  intros a l; induction l as [|[i c] l IH]; intros outs outs' d H; cbn in H.
+  - inversion H; auto.
+  - destruct (bl_last a && match l with [] => true | _ => false end && ((bl_gfail a =? 2) || (bl_gfail a =? 3))).
+    + inversion H; auto.
+    + destruct (nth_error outs (N.to_nat i)) as [o|]; [|inversion H; auto].
+      apply IH in H; rewrite H, length_set_nth; auto.
+Qed.
+
+Lemma do_blind_len : forall p a auxs outs sc r, do_blind p a = ((auxs, outs, sc), r) -> length outs = length (p_outs p).
+Proof.
+  intros p a auxs outs sc r H; unfold do_blind in H.
+  repeat match type of H with
+  | (if ?b then _ else _) = _ => destruct b
+  | (match ?x with _ => _ end) = _ => destruct x eqn:?
+  | (let '(_, _) := ?x in _) = _ => destruct x eqn:?
+  end; try (inversion H; subst; auto; fail);
+  try (inversion H; subst; eapply blind_outs_len; eauto).
+Qed.
+
+Lemma local_step_len : forall p o auxs outs sc r,
+  local_step p o = ((auxs, outs, sc), r) -> length outs = length (p_outs p).
+Proof.
+  intros p o auxs outs sc r H; destruct o; cbn [local_step] in H;
+    try (apply on_input_parts in H as [H _]; subst; reflexivity);
+    try (apply on_output_parts in H as [H _]; exact H);
+    try (inversion H; subst; reflexivity).
+  - (* sign *) destruct (in_index p i true) as [[[n c] a]|o]; [|inversion H; subst; reflexivity].
+    apply on_input_parts in H as [H _]; subst; reflexivity.
+  - eapply do_blind_len; eauto.
+  - (* finalize *)
+    destruct ((i <? 0)%Z || (Z.of_nat (length (p_auxs p)) <=? i)%Z); [inversion H; subst; reflexivity|].
+    destruct (nth_error (p_cores p) (Z.to_nat i)); [|inversion H; subst; reflexivity].
+    destruct (nth_error (p_auxs p) (Z.to_nat i)); [|inversion H; subst; reflexivity].
+    destruct (finalize_local c a); inversion H; subst; reflexivity.
+  - destruct ((i <? 0)%Z || (Z.of_nat (length (p_auxs p)) <=? i)%Z); [inversion H; subst; reflexivity|].
+    destruct (nth_error (p_cores p) (Z.to_nat i)); [|inversion H; subst; reflexivity].
+    destruct (nth_error (p_auxs p) (Z.to_nat i)); [|inversion H; subst; reflexivity].
+    destruct (maybe_finalize_local c a); inversion H; subst; reflexivity.
+  - destruct (finalize_loop finalize_local (p_cores p) 0 (length (p_cores p)) (p_auxs p) (p_outs p) (g_scalars p)).
+    inversion H; subst; reflexivity.
+  - destruct (finalize_loop maybe_finalize_local (p_cores p) 0 (length (p_cores p)) (p_auxs p) (p_outs p) (g_scalars p)).
+    inversion H; subst; reflexivity.
+Qed.
+
+Definition same_skel (p p' : pset) : Prop :=
+  g_nin p' = g_nin p /\ g_nout p' = g_nout p /\ g_flags p' = g_flags p /\ g_fallback p' = g_fallback p
+  /\ p_cores p' = p_cores p /\ length (p_outs p') = length (p_outs p).
+
+Lemma same_skel_refl : forall p, same_skel p p.
+Proof. intro p; unfold same_skel; repeat split; auto. Qed.
+
+Lemma same_skel_upd : forall p auxs outs sc, length outs = length (p_outs p) -> same_skel p (upd p auxs outs sc).
+Proof. intros; unfold same_skel, upd; cbn; repeat split; auto. Qed.
+
+(* how one step relates the packet before and after *)
+Inductive step_rel (p p' : pset) : Prop :=
+| SR_same : same_skel p p' -> step_rel p p'
+| SR_flags : forall f, p' = set_flags p f -> step_rel p p'
+| SR_ins : forall l, add_inputs p l = Some p' -> step_rel p p'
+| SR_outs : forall p1 p2 l, same_skel p p1 -> add_outputs p1 l = Some p2 -> same_skel p2 p' -> step_rel p p'.
+
+Lemma local_step_rel : forall p o,
+  step_rel p (let '((auxs, outs, sc), r) := local_step p o in (upd p auxs outs sc)).
+Proof.
+  intros p o; destruct (local_step p o) as [[[auxs outs] sc] r] eqn:E.
+  apply SR_same, same_skel_upd. eapply local_step_len; eauto.
+Qed.
+
+Lemma step_rel_holds : forall p o, step_rel p (fst (step p o)).
+Proof.
+  intros p o.
+  assert (forall o', step p o' = (let '((auxs, outs, sc), r) := local_step p o' in (upd p auxs outs sc, r)) ->
+          step_rel p (fst (step p o'))) as Hloc.
+  { intros o' E; rewrite E. pose proof (local_step_rel p o') as H.
+    destruct (local_step p o') as [[[auxs outs] sc] r]; exact H. }
+  destruct o; try (apply Hloc; reflexivity).
+  - (* setmod *) cbn. eapply SR_flags; reflexivity.
+  - (* AddInputs *) cbn [step].
+    destruct (negb (forallb (fun a => ia_cls a =? 0) l)); [apply SR_same, same_skel_refl|].
+    destruct (add_inputs p l) as [p'|] eqn:E; [|apply SR_same, same_skel_refl].
+    cbn [fst]. eapply SR_ins; eauto.
+  - (* AddOutputs *) cbn [step].
+    destruct (negb (forallb outarg_valid l)); [apply SR_same, same_skel_refl|].
+    destruct (add_outputs p (map to_outp l)) as [p'|] eqn:E; [|apply SR_same, same_skel_refl].
+    cbn [fst]. eapply SR_outs; [apply same_skel_refl|eauto|apply same_skel_refl].
+  - (* AddInIssuance *) cbn [step]; unfold do_issue.
+    destruct (negb (issue_validate a)); [apply SR_same, same_skel_refl|].
+    destruct (p_cores p) eqn:Ecs; [apply SR_same, same_skel_refl|].
+    destruct (in_index p i true) as [[[n c0] ax]|o]; [|apply SR_same, same_skel_refl].
+    destruct (a_entropy ax); [apply SR_same, same_skel_refl|].
+    destruct (c_short c0); [apply SR_same, same_skel_refl|].
+    match goal with |- context[add_outputs ?p1 ?l] => destruct (add_outputs p1 l) as [p2|] eqn:E end.
+    + cbn [fst]. eapply SR_outs; [|eauto|apply same_skel_refl]. apply same_skel_upd; reflexivity.
+    + cbn [fst]. apply SR_same, same_skel_upd; reflexivity.
+  - (* AddInReissuance *) cbn [step]; unfold do_reissue.
+    destruct (in_index p i true) as [[[n c0] ax]|o]; [|apply SR_same, same_skel_refl].
+    destruct (a_entropy ax); [apply SR_same, same_skel_refl|].
+    destruct (negb (reissue_validate a)); [apply SR_same, same_skel_refl|].
+    match goal with |- context[add_outputs ?p1 ?l] => destruct (add_outputs p1 l) as [p2|] eqn:E end.
+    + cbn [fst]. eapply SR_outs; [apply same_skel_refl|eauto|]. apply same_skel_upd; reflexivity.
+    + apply SR_same, same_skel_refl.
+Qed.
+
+(* ---------- invariants over one step ---------- *)
+Lemma same_skel_cm : forall p p', same_skel p p' -> cm p -> cm p'.
+Proof. intros p p' (A1 & A2 & _ & _ & A5 & A6) [C1 C2]; unfold cm; rewrite A1, A2, A5, A6; auto. Qed.
+
+Lemma same_skel_nd : forall p p', same_skel p p' -> nd p -> nd p'.
+Proof. intros p p' (_ & _ & _ & _ & A5 & _) H; unfold nd in *; rewrite A5; auto. Qed.
+
+Lemma step_cm : forall p o, cm p -> cm (fst (step p o)).
+Proof.
+  intros p o C; destruct (step_rel_holds p o) as [H|f H|l H|p1 p2 l H1 H2 H3].
+  - eapply same_skel_cm; eauto.
+  - rewrite H; exact C.
+  - eapply add_inputs_cm; eauto.
+  - eapply same_skel_cm; eauto. eapply add_outputs_cm; eauto. eapply same_skel_cm; eauto.
+Qed.
+
+Lemma step_nd : forall p o, nd p -> nd (fst (step p o)).
+Proof.
+  intros p o C; destruct (step_rel_holds p o) as [H|f H|l H|p1 p2 l H1 H2 H3].
+  - eapply same_skel_nd; eauto.
+  - rewrite H; exact C.
+  - eapply add_inputs_nd; eauto.
+  - eapply same_skel_nd; eauto.
+    apply add_outputs_inv in H2 as (_ & _ & _ & _ & _ & A6 & _). unfold nd; rewrite A6.
+    eapply same_skel_nd; eauto.
+Qed.
+
+(* ---------- the creator ---------- *)
+Lemma new_outs_inv : forall l p p', new_outs p l = IOk p' -> exists l', add_outputs p l' = Some p'.
+Proof.
+  induction l as [|a l IH]; intros p p' H; cbn in H.
+  - inversion H; subst; exists []; reflexivity.
+  - destruct (oa_cls a =? 2); [discriminate|].
+    destruct (add_output p (to_outp a)) as [p1|] eqn:E; [|discriminate].
+    apply IH in H as [l' H]. exists (to_outp a :: l'); cbn; rewrite E; exact H.
+Qed.
+
+Lemma init_cm : forall ins outs fb p0, init ins outs fb = IOk p0 -> cm p0.
+Proof.
+  intros ins outs fb p0 H; unfold init in H.
+  destruct (add_inputs (empty_pset fb) ins) as [p|] eqn:E; [|discriminate].
+  apply new_outs_inv in H as [l' H]. eapply add_outputs_cm; eauto. eapply add_inputs_cm; eauto.
+  unfold cm; cbn; auto.
+Qed.
+
+Lemma init_nd : forall ins outs fb p0, init ins outs fb = IOk p0 -> nd p0.
+Proof.
+  intros ins outs fb p0 H; unfold init in H.
+  destruct (add_inputs (empty_pset fb) ins) as [p|] eqn:E; [|discriminate].
+  apply new_outs_inv in H as [l' H].
+  apply add_outputs_inv in H as (_ & _ & _ & _ & _ & A6 & _). unfold nd; rewrite A6.
+  eapply add_inputs_nd; eauto. unfold nd; cbn; constructor.
+Qed.
+
+Lemma run_inv : forall (P : pset -> Prop), (forall p o, P p -> P (fst (step p o))) ->
+  forall ops p, P p -> P (run p ops).
+Proof.
+  intros P Hs; induction ops as [|o ops IH]; intros p Hp; cbn; auto. apply IH, Hs, Hp.
+Qed.
+
+(* ===== C11 clause 1: the declared counts are the actual numbers ===== *)
+Theorem counts_match : forall ins outs fb p0 ops, init ins outs fb = IOk p0 ->
+  let p := run p0 ops in
+  g_nin p = N.of_nat (length (p_cores p)) /\ g_nout p = N.of_nat (length (p_outs p)).
+Proof. intros ins outs fb p0 ops H. apply (run_inv cm step_cm). eapply init_cm; eauto. Qed.
+
+(* ===== C11 clause 2: no two inputs spend the same outpoint ===== *)
+Theorem no_duplicate_outpoints : forall ins outs fb p0 ops, init ins outs fb = IOk p0 ->
+  NoDup (map outpoint (p_cores (run p0 ops))).
+Proof. intros ins outs fb p0 ops H. apply (run_inv nd step_nd). eapply init_nd; eauto. Qed.
+
+(* ===== C11 clause 3: nothing is added once the matching modifiable flag is clear (any state, any operation) ===== *)
+Theorem modifiable_respected : forall p o,
+  (inputs_modifiable p = false -> p_cores (fst (step p o)) = p_cores p)
+  /\ (outputs_modifiable p = false -> length (p_outs (fst (step p o))) = length (p_outs p)).
+Proof.
+  intros p o; destruct (step_rel_holds p o) as [H|f H|l H|p1 p2 l H1 H2 H3]; split; intro Hm.
+  - destruct H as (_ & _ & _ & _ & A5 & _); auto.
+  - destruct H as (_ & _ & _ & _ & _ & A6); auto.
+  - rewrite H; reflexivity.
+  - rewrite H; reflexivity.
+  - apply add_inputs_inv in H as (_ & _ & _ & _ & _ & A6 & _ & _ & A9).
+    destruct l as [|a l]; [rewrite A6; cbn; apply app_nil_r|]. rewrite A9 in Hm; [discriminate|congruence].
+  - apply add_inputs_inv in H as (_ & _ & _ & _ & _ & _ & _ & A8 & _). rewrite A8; reflexivity.
+  - destruct H1 as (_ & _ & _ & _ & B5 & _), H3 as (_ & _ & _ & _ & C5 & _).
+    apply add_outputs_inv in H2 as (_ & _ & _ & _ & _ & A6 & _). congruence.
+  - destruct H1 as (_ & _ & B3 & _ & _ & B6), H3 as (_ & _ & _ & _ & _ & C6).
+    apply add_outputs_inv in H2 as (_ & _ & _ & _ & _ & _ & _ & A8 & A9).
+    destruct l as [|a l].
+    + rewrite C6, A8, app_nil_r; auto.
+    + unfold outputs_modifiable in *. rewrite B3 in A9. rewrite A9 in Hm; [discriminate|congruence].
+Qed.
